@@ -575,7 +575,23 @@ func ResolveAnchors(p *Prog) *Anchors {
 	}
 
 	pick("currentAge", inReach, func(fn *ssa.Function) bool {
-		return fn.Parent() == nil && headerCallWithKey(fn, "Get", "Age")
+		if fn.Parent() != nil {
+			return false
+		}
+		if a.AgeT == nil {
+			return headerCallWithKey(fn, "Get", "Age")
+		}
+		// the function that produces the age record; the Age field may be read in a helper below it
+		rs := sigResults(fn)
+		if len(rs) != 1 || !(isPtrToNamed(rs[0], a.AgeT) || isNamed(rs[0], a.AgeT)) {
+			return false
+		}
+		for g := range p.StaticTree(fn) {
+			if headerCallWithKey(g, "Get", "Age") || headerCallWithKey(g, "Values", "Age") {
+				return true
+			}
+		}
+		return false
 	})
 	pick("heuristic", inReach, func(fn *ssa.Function) bool {
 		rs := sigResults(fn)
